@@ -113,7 +113,10 @@ Verdict(e) ==
                              Arg(e.a), PrecOf(e), ModeOf(e), e.r)
     [] op = "cbrt" -> CbrtOK(Arg(e.a), PrecOf(e), ModeOf(e), e.r)
     [] op = "inverse" -> LET v == InverseOK(Arg(e.a), PrecOf(e), ModeOf(e), e.r)
-                         IN IF v = OK THEN InvAgreeOK(hist.inv, Arg(e.a), PrecOf(e), ModeOf(e), e.r) ELSE v
+                             w == IF v = OK THEN InvAgreeOK(hist.inv, Arg(e.a), PrecOf(e), ModeOf(e), e.r) ELSE v
+                         \* behaviours printed by the mechanism model MC_Inverse carry the result the modelled routine computes
+                         IN IF w = OK /\ "mech" \in DOMAIN e /\ ~ValEq(DecOf(e.r.d), DecOf(e.mech))
+                            THEN Info("result-differs-from-the-modelled-routine") ELSE w
     [] op = "div" ->
          \* operands may be binary floats (normal ones): they stand for the exact decimal they hold
          LET A == FArg(e.a)  B == FArg(e.b) IN
